@@ -41,10 +41,20 @@ fn canon(v: &J) -> String {
 }
 
 /// fields of `proj` that differ from the same-named fields of `spec` (one level of nesting resolved)
+thread_local! {
+    /// self-reported constant fields (id table check, wiring, metadata) that already differed in the initial state of
+    /// the walk being replayed: reported once (`init_soft`), then masked so that the walk can go on
+    static MASKED: std::cell::RefCell<Vec<String>> = std::cell::RefCell::new(vec![]);
+}
+
 fn state_diffs(spec: &J, proj: &J) -> Vec<J> {
     let mut out = vec![];
+    let masked: Vec<String> = MASKED.with(|m| m.borrow().clone());
     if let Some(po) = proj.as_object() {
         for (k, pv) in po {
+            if masked.contains(k) {
+                continue;
+            }
             let sv = spec.get(k).cloned().unwrap_or(J::Null);
             if sv.is_null() {
                 continue; // not modelled by this specification instance
@@ -77,7 +87,9 @@ fn compare(inst: &J, step: &J, pre: &J, obs: &common::Obs, proj: &J) -> Option<J
     let exp = &step["exp"];
     let exp_ok = exp["ok"].as_bool().unwrap();
     if exp_ok != obs.ok {
-        return Some(json!({"kind": "outcome", "spec_ok": exp_ok, "code_ok": obs.ok, "err": obs.err}));
+        // a call the specification refuses must change nothing: what the accepted call changed is part of the finding
+        let diffs = if obs.ok { state_diffs(pre, proj) } else { vec![] };
+        return Some(json!({"kind": "outcome", "spec_ok": exp_ok, "code_ok": obs.ok, "err": obs.err, "diffs": diffs}));
     }
     if exp_ok {
         if exp["ret"] != json!("unit") && exp["ret"] != obs.ret {
@@ -111,10 +123,19 @@ fn replay_walk(module: &str, inst: &J, walk: &J) -> J {
     let mut b = make_binder(module, inst, &walk["init"]);
     let mut pre = walk["init"].clone();
     // the initial projection must match the initial state
+    MASKED.with(|m| m.borrow_mut().clear());
     let p0 = b.project();
     let d0 = state_diffs(&pre, &p0);
+    let mut init_soft: Option<Vec<J>> = None;
     if !d0.is_empty() {
-        return json!({"walk": walk["id"], "steps_run": 0, "divergence": {"step": -1, "kind": "init", "diffs": d0}});
+        let soft: Vec<String> = inst["init_soft"].as_array().map(|a| a.iter().map(|x| x.as_str().unwrap().to_string()).collect()).unwrap_or_default();
+        let fields: Vec<String> = d0.iter().map(|d| d["field"].as_str().unwrap_or("").split('.').next().unwrap().to_string()).collect();
+        if !soft.is_empty() && fields.iter().all(|f| soft.contains(f)) {
+            MASKED.with(|m| *m.borrow_mut() = fields.clone());
+            init_soft = Some(d0);
+        } else {
+            return json!({"walk": walk["id"], "steps_run": 0, "divergence": {"step": -1, "kind": "init", "diffs": d0}});
+        }
     }
     for (i, step) in steps.iter().enumerate() {
         let obs = b.exec(&step["act"]);
@@ -158,11 +179,11 @@ fn replay_walk(module: &str, inst: &J, walk: &J) -> J {
                 }
                 div["control_ok"] = json!(any);
             }
-            return json!({"walk": walk["id"], "steps_run": i + 1, "divergence": div});
+            return json!({"walk": walk["id"], "steps_run": i + 1, "divergence": div, "init_soft": init_soft});
         }
         pre = step["post"].clone();
     }
-    json!({"walk": walk["id"], "steps_run": steps.len(), "divergence": J::Null})
+    json!({"walk": walk["id"], "steps_run": steps.len(), "divergence": J::Null, "init_soft": init_soft})
 }
 
 fn cmd_replay(args: &[String]) {
